@@ -15,7 +15,7 @@ package adapter
 //@ macro paramsAre(a, p) = item_set == store(old(item_set), a.params, true) && item_params == store(old(item_params), a.params, p)
 
 //@ func (a *Adapter) CheckPassthroughPayloadSize(ctx, passthroughPayload) (err)
-//@   requires[base] a != nil && a.logger != nil
+//@   requires[inv]  a != nil && a.logger != nil
 //@   ensures[C18] len(passthroughPayload) > limitOf(a) ==> err != nil
 //@   ensures[C18] len(passthroughPayload) <= limitOf(a) ==> err == nil
 
@@ -40,6 +40,30 @@ package adapter
 // The limit is checked before anything else happens in the pre-transfer hook: a too long passthrough
 // payload is refused with the ledger untouched.
 //@ func (a *Adapter) commonBeforeTransferHook(ctx, denom, passthroughPayload) (err)
-//@   requires[base] a != nil && a.logger != nil && a.bankKeeper != nil
+//@   requires[inv]  a != nil && a.logger != nil && a.bankKeeper != nil
 //@   modifies bank
 //@   ensures[C18] len(passthroughPayload) > limitOf(a) ==> err != nil && bank == old(bank)
+
+// ---------------------------------------------------------------------------------------------
+// The adapter as the payload adapter of the middleware (implements types.PayloadAdapter)
+// ---------------------------------------------------------------------------------------------
+
+// Component invariants established by New/SetAdapterControllers (wiring, depinject.go): injected
+// dependencies are present and the IBC adapter controller is the route of PROTOCOL_IBC.
+//@ macro ibcRoute(a) = mapGet(a.router.routes, core.PROTOCOL_IBC)
+//@ func (a *Adapter) AdaptPacket(ctx, id, packet) (op, err)
+//@   requires[inv] a != nil && a.logger != nil && a.router != nil
+//@   requires[inv] mapHas(a.router.routes, core.PROTOCOL_IBC) && tag(ibcRoute(a)) != 0
+
+//@ func (a *Adapter) BeforeTransferHook(ctx, packet) (err)
+//@   requires[inv] a != nil && a.logger != nil && a.bankKeeper != nil
+
+//@ func (a *Adapter) ProcessPayload(ctx, packet) (err)
+//@   requires[inv] a != nil && a.dispatcher != nil && a.eventService != nil
+
+// The sweep: afterwards the orbiter holds nothing of the denomination; what it held is on the dust collector.
+//@ func (a *Adapter) clearOrbiterBalance(ctx, denom) (err)
+//@   requires[inv] a != nil && a.bankKeeper != nil
+//@   modifies bank
+//@   ensures[C01,C02,C11] err == nil ==> bank == moveIf(bal(old(bank), core.ModuleAddress, denom) > 0, old(bank), core.ModuleAddress, moduleAddr(core.DustCollectorName), denom, bal(old(bank), core.ModuleAddress, denom))
+//@   ensures[C03,C07,C18] err != nil ==> bank == old(bank)
